@@ -3,6 +3,8 @@ package props
 import (
 	"bytes"
 	"fmt"
+	"os"
+	"time"
 
 	"github.com/openacid/slim/trie"
 )
@@ -10,6 +12,45 @@ import (
 type yielded struct {
 	key []byte
 	val []byte
+}
+
+// scanCallLimit bounds the callback invocations of one scan: far above the number
+// of keys any generated trie holds (the scale tests do not scan).
+const scanCallLimit = 3000000
+
+type runawayScan struct{}
+
+// runScanWatched is runScan under the hang watchdog: a scan that neither returns
+// nor calls back within hangLimit is reported as a violation (the process exits,
+// a spinning goroutine cannot be stopped); one that calls back without end is
+// cut off by scanCallLimit and reported by the caller.
+func runScanWatched(prop string, c *Case, s *Stats, st *trie.SlimTrie, sc *ScanSpec) (out []yielded, calls int, exhaustedOK bool, pv interface{}) {
+	type res struct {
+		out   []yielded
+		calls int
+		ex    bool
+		pv    interface{}
+	}
+	done := make(chan res, 1)
+	go func() {
+		o, n, e, p := runScan(st, sc)
+		done <- res{o, n, e, p}
+	}()
+	tm := time.NewTimer(hangLimit())
+	defer tm.Stop()
+	select {
+	case r := <-done:
+		return r.out, r.calls, r.ex, r.pv
+	case <-tm.C:
+		path := writeReplay(prop, c)
+		fmt.Printf("VIOLATION property=%s replay=%s\n", prop, path)
+		fmt.Printf("DETAIL property=%s non-termination: scan %+v did not return within %v (%d keys)\n", prop, *sc, hangLimit(), len(c.Keys))
+		if s != nil {
+			s.write()
+		}
+		os.Exit(1)
+	}
+	return
 }
 
 // runScan executes one scan and returns what it yielded, the number of
@@ -23,6 +64,11 @@ func runScan(st *trie.SlimTrie, sc *ScanSpec) (out []yielded, calls int, exhaust
 	exhaustedOK = true
 	cb := func(k, v []byte) bool {
 		calls++
+		if calls > scanCallLimit {
+			// a scan that keeps yielding (or ignores a false returned by the callback)
+			// would otherwise only end with the test deadline
+			panic(runawayScan{})
+		}
 		y := yielded{key: append([]byte{}, k...)}
 		if v != nil {
 			y.val = append([]byte{}, v...)
@@ -139,7 +185,10 @@ func checkC04(c *Case, s *Stats) error {
 	refusals, permitted := 0, 0
 	for i := range scans {
 		sc := &scans[i]
-		out, calls, exhaustedOK, pv := runScan(st, sc)
+		out, calls, exhaustedOK, pv := runScanWatched("C04", c, s, st, sc)
+		if _, runaway := pv.(runawayScan); runaway {
+			return viol("scan-runaway", "scan %+v called back more than %d times on a trie of %d keys (stop point %d)", *sc, scanCallLimit, len(m.Keys), sc.Stop)
+		}
 		if complete {
 			if pv != nil {
 				return viol("panic", "scan %+v on a Complete trie panicked: %v", *sc, pv)
